@@ -16,7 +16,9 @@ out=$(VERIF_NO_EVIDENCE=1 VERIF_REPO=/tmp/bn/$id /verif/check $c 2>&1); code=$?
 if [ $code -ne 0 ]; then printf "== %s %s exit=%s\n%s\n" "$id" "$c" "$code" "$(echo "$out" | grep -E "^/tmp/bn|ANALYSIS-ERROR" | cut -c1-240 | head -3)"; fi
 X
 chmod +x /tmp/bn/one.sh
-xargs -P 16 -L 1 /tmp/bn/one.sh < /tmp/bn/jobs > /tmp/benign_result.txt
+# phase 1 computes the foundation bundle once per patched copy (cached by source digest); phase 2 reuses it
+grep " C01$" /tmp/bn/jobs | xargs -P 16 -L 1 /tmp/bn/one.sh > /tmp/benign_result.txt
+grep -v " C01$" /tmp/bn/jobs | xargs -P 16 -L 1 /tmp/bn/one.sh >> /tmp/benign_result.txt
 grep "^==" /tmp/benign_result.txt | sort | awk '{print $2, $3, $4}' | tr '\n' ';'
 echo; echo "failing (patch,check) pairs: $(grep -c '^==' /tmp/benign_result.txt)"
 rm -rf /tmp/bn
